@@ -685,7 +685,7 @@ func c18sNoDataWhilePaused(c *ctx, s *c18sScn) {
 }
 
 // ---------------------------------------------------------------------------------------------
-// the end-to-end part of group pausesend ("e2e-pause-resplit" in DESIGN 10.33): real client (filter) uploading to a real trz child with a chunk-size limit of 10 KB.  The
+// the end-to-end part of group pausesend ("e2e-pause-resplit" in DESIGN 10.37): real client (filter) uploading to a real trz child with a chunk-size limit of 10 KB.  The
 // acknowledgements stall once for 3.2 s (timeout 6 s): the first late one makes pipelineRecvAck divide the chunk size
 // by three, and the encoded blocks that are still queued are now cut into pieces.  Ctrl-C is typed while the
 // header of the FIRST piece of such a block is being written (the write is held until the pause has registered);
